@@ -24,7 +24,7 @@ use serde_json::json;
 use std::collections::{BTreeMap, BTreeSet, HashSet};
 use std::sync::{Arc, Mutex};
 use tensor_store::{
-    ScalarValue, SyncMode, TensorData, TensorStore, TensorValue, TensorWal, WalConfig, WalEntry,
+    CacheRing, ScalarValue, SyncMode, TensorData, TensorStore, TensorValue, TensorWal, WalConfig, WalEntry,
 };
 
 // ------------------------------------------------------------------ vocabulary shared with the model
@@ -488,6 +488,57 @@ fn live_ids_of(store: &TensorStore, key: &str) -> usize {
 /// that hook is committed: `index_hook_present`)
 const SITE_INDEX_MISS: &str = "index.get_or_create.after_miss";
 
+/// the yield point INSIDE `CacheRing::get`, between the index lookup (`index.read()`, released) and the
+/// slot read (`slots.write()`) - proposed/C11-hook-cache-ring-yield.diff; absent from the tree until
+/// that hook is committed (`ring_hook_present`)
+const SITE_RING_GET: &str = "cache_ring.get.after_index";
+
+/// Pairs of `_cache:` keys with ONE FxHash (rustc-hash 2.x, `str::hash` = `hash_bytes(bytes)` then the
+/// 0xFF terminator; found offline from the symmetry of `multiply_mix(s0, s1)` in the two halves of the
+/// last 16 bytes of a 32-byte key).  `CacheRing` indexes its slots by that hash, so the two keys of a
+/// pair share one index entry.  Checked at start against the REAL ring (`pair_collides`): a pair
+/// that no longer collides (the hash function changed) is skipped with a counted note.
+const COLLIDING: [(&str, &str); 7] = [
+    ("_cache:sess:aafhA0A00000zizOwoOy", "_cache:sess:aafhY8O6270xbatIuhO1"),
+    ("_cache:sess:Hczrgs0DOdoE2T0gief0", "_cache:sess:HczrceqJv4ZB6BqiP5S7"),
+    ("_cache:q:dhgAxOjww71P7gGhk5Fgwn8", "_cache:q:dhgAxOjKIl2m3xJTUnEZsq5"),
+    ("_cache:user:Pl5p30bZuf4r4PmZWBsU", "_cache:user:Pl5pr89OMM3SuX6Ooitt"),
+    ("_cache:page:wVRmEaIyZ6RJ9N2gohUv", "_cache:page:wVRmEA7pb4Fj9nLnWjAV"),
+    ("_cache:tok:4SeZO7v5MMum8BuU66daz", "_cache:tok:4SeZO818KBZJ0M2X09KFr"),
+    ("_cache:1Yr4gMUr9vrJbQtrGzybIe7DC", "_cache:1Yr4gMUr95aYMzzrN9jqfN9DJ"),
+];
+
+/// do the two keys share an index entry of the real `CacheRing`?  On a fresh ring with room for
+/// both: after `put(a)`, `put(b)` the entry of `a` still occupies its slot (the scan lists both) but
+/// the one index entry of the shared hash points at `b`'s slot - `contains(a)` is false.  Keys with
+/// different hashes are both found.
+fn pair_collides(a: &str, b: &str) -> bool {
+    let ring: CacheRing<u8> = CacheRing::with_capacity(8);
+    ring.put(a, 1, 1.0, 1);
+    ring.put(b, 2, 1.0, 1);
+    a != b && !ring.contains(a) && ring.contains(b) && ring.scan_prefix("").len() == 2
+}
+
+/// the groups of keys of `progs` that share a hash (pairs of `coll` both of whose keys occur)
+fn collisions_in(progs: &[Vec<Op>], coll: &[(Key, Key)]) -> Vec<(Key, Key)> {
+    let u = universe(progs);
+    coll.iter().filter(|(a, b)| u.contains(a) && u.contains(b)).copied().collect()
+}
+/// as the `<collisions>` field of the model commands `runr` / `runrf`
+fn show_coll(c: &[(Key, Key)]) -> String {
+    if c.is_empty() {
+        "-".into()
+    } else {
+        c.iter().map(|(a, b)| format!("{}={}", a.show(), b.show())).collect::<Vec<_>>().join(",")
+    }
+}
+fn parse_coll(s: &str) -> Vec<(Key, Key)> {
+    if s == "-" {
+        return vec![];
+    }
+    s.split(',').filter_map(|g| g.split_once('=').and_then(|(a, b)| Some((parse_key(a)?, parse_key(b)?)))).collect()
+}
+
 /// "the filter knows every visible key" (Lean: `BloomProps.filter_knows_every_visible_key`), asked of
 /// the REAL store at every scheduling decision: the scheduler thread, while every worker is parked,
 /// reads each key of the programs through the router (`store.router()`: the slabs, what a scan
@@ -574,11 +625,14 @@ fn site_key(site: &str, key: &str) -> String {
 /// an operation on an `emb:` key is not offered while another thread is inside an operation on the
 /// same key (parked at one of its `router.*` yield points).
 ///
+/// `ring_steps`: the yield point inside `CacheRing::get` (`SITE_RING_GET`) is an atomic step of its own
+/// (model: `runr`).  `false`: a thread that parks there is let through at once, unrecorded.
+///
 /// `index_steps`: the yield point inside `try_get_or_create` (`SITE_INDEX_MISS`) is an atomic step of
 /// its own (model: `runi`).  `false`: a thread that parks there is let through at once - nobody
 /// else moves in between, `get_or_create` stays inside the step that called it (model: `run`), and
 /// the step is not recorded.
-fn run_real(progs: &[Vec<Op>], wal: Option<SyncMode>, variant: u8, crash_at: Option<usize>, respect_lock: bool, exclusive_emb: bool, index_steps: bool, mut pick: impl FnMut(usize, &[usize], Option<usize>) -> Option<usize>) -> RunOut {
+fn run_real(progs: &[Vec<Op>], wal: Option<SyncMode>, variant: u8, crash_at: Option<usize>, respect_lock: bool, exclusive_emb: bool, index_steps: bool, ring_steps: bool, mut pick: impl FnMut(usize, &[usize], Option<usize>) -> Option<usize>) -> RunOut {
     let dir = tempfile::tempdir().expect("tempdir");
     let wal_path = dir.path().join("store.wal");
     let cfg = wal.map(|m| WalConfig { sync_mode: m, ..WalConfig::default() });
@@ -631,6 +685,13 @@ fn run_real(progs: &[Vec<Op>], wal: Option<SyncMode>, variant: u8, crash_at: Opt
     let trace = run_threads(tasks, |_n, parked| {
         if !index_steps {
             if let Some(p) = parked.iter().position(|x| x.1 == SITE_INDEX_MISS) {
+                waiting_at.push(waiting.iter().map(|w| w.0).collect());
+                return p;
+            }
+        }
+        if !ring_steps {
+            // the two lock sections of `CacheRing::get` in one scheduler step (model: `run` / `runrf`)
+            if let Some(p) = parked.iter().position(|x| x.1 == SITE_RING_GET) {
                 waiting_at.push(waiting.iter().map(|w| w.0).collect());
                 return p;
             }
@@ -1021,6 +1082,173 @@ fn deleted_key_still_visible(recs: &[HRec]) -> Option<(HRec, HRec)> {
 const CLASS_TWO_LIVE_IDS: &str = "tensor_store.entity_index/key_with_two_live_ids";
 const WHAT_TWO_LIVE_IDS: &str = "an emb: key has two live entity ids (EntityIndex::get_or_create gave concurrent first writers of the key an id each): a delete that returned Ok tombstoned one of them, and with no put of the key anywhere in between the key is still visible (exists true / get finds a value no put wrote / the scan lists it / a second delete returns Ok as well)";
 
+const CLASS_VALUE_OF_ANOTHER_KEY: &str = "tensor_store.cache_ring.get/value_of_another_key";
+const WHAT_VALUE_OF_ANOTHER_KEY: &str = "a get returned a value that no put ever stored under the key it read - the value was only ever put under ANOTHER key (the slot the index resolved for the key holds another key's entry: it was re-used between the index lookup and the slot read of the get, or the two keys have one hash)";
+
+/// `RingProps.cache_get_returns_only_a_value_written_to_that_key` on a recorded history: (the get, the
+/// key the value belongs to) when a get found a value that no put of the programs stores under the
+/// key it read and that some put stores under another key
+fn value_of_another_key(progs: &[Vec<Op>], hist: &[HRec]) -> Option<(HRec, Key)> {
+    for r in hist {
+        if let (Op::Get(k), Res::Found(v)) = (&r.op, &r.res) {
+            let (mut own, mut other) = (false, None);
+            for op in progs.iter().flatten() {
+                if let Op::Put(k2, v2) | Op::PutD(k2, v2) = op {
+                    if v2 == v {
+                        if k2 == k {
+                            own = true;
+                        } else if other.is_none() {
+                            other = Some(*k2);
+                        }
+                    }
+                }
+            }
+            if let (false, Some(owner)) = (own, other) {
+                return Some((r.clone(), owner));
+            }
+        }
+    }
+    None
+}
+
+/// THE RING as a sequential object (Lean: `Ring.lean`, `ringPut` / `ringDelete` / `ringContains` /
+/// `ringGetAtomic` / `ringEntries`), for cache keys; every other key in a plain map.  The hash of a
+/// key = the smallest key of its collision group.
+#[derive(Clone, PartialEq, Eq, Hash)]
+struct RingSpec {
+    slots: Vec<Option<(Key, Val)>>,
+    index: BTreeMap<Key, usize>,
+    other: BTreeMap<Key, Val>,
+}
+fn ring_hash(k: Key, coll: &[(Key, Key)]) -> Key {
+    coll.iter().find(|(a, b)| *a == k || *b == k).map_or(k, |(a, b)| if a.0 <= b.0 { *a } else { *b })
+}
+impl RingSpec {
+    fn holds(&self, k: Key, i: usize) -> bool {
+        matches!(self.slots.get(i), Some(Some((k2, _))) if *k2 == k)
+    }
+    fn contains(&self, k: Key, coll: &[(Key, Key)]) -> bool {
+        self.index.get(&ring_hash(k, coll)).map_or(false, |i| self.holds(k, *i))
+    }
+    fn get(&self, k: Key, coll: &[(Key, Key)]) -> Option<Val> {
+        let i = *self.index.get(&ring_hash(k, coll))?;
+        match self.slots.get(i) {
+            Some(Some((k2, v))) if *k2 == k => Some(*v),
+            _ => None,
+        }
+    }
+    fn put(&mut self, k: Key, v: Val, coll: &[(Key, Key)]) {
+        let h = ring_hash(k, coll);
+        if let Some(&i) = self.index.get(&h) {
+            if self.holds(k, i) {
+                self.slots[i] = Some((k, v));
+                return;
+            }
+        }
+        // the first empty slot (the spec never fills up: a case has a handful of operations)
+        let j = match self.slots.iter().position(|s| s.is_none()) {
+            Some(j) => j,
+            None => {
+                self.slots.push(None);
+                self.slots.len() - 1
+            }
+        };
+        self.slots[j] = Some((k, v));
+        self.index.insert(h, j);
+    }
+    /// `SlabRouter::delete`: `contains`, then `CacheRing::delete`
+    fn delete(&mut self, k: Key, coll: &[(Key, Key)]) -> bool {
+        if !self.contains(k, coll) {
+            return false;
+        }
+        if let Some(i) = self.index.remove(&ring_hash(k, coll)) {
+            self.slots[i] = None;
+        }
+        true
+    }
+    fn keys(&self) -> BTreeSet<Key> {
+        self.slots.iter().flatten().map(|(k, _)| *k).chain(self.other.keys().copied()).collect()
+    }
+    fn ok(&self, op: &Op, res: &Res, coll: &[(Key, Key)]) -> bool {
+        let cache = |k: &Key| k.cls() == Cls::C;
+        match op {
+            Op::Put(..) | Op::PutD(..) => *res == Res::Ok,
+            Op::Get(k) if cache(k) => match (self.get(*k, coll), res) {
+                (Some(v), Res::Found(w)) => v == *w,
+                // a get whose slot was emptied or re-used between its two lock sections reports absent
+                (_, Res::Nf) => true,
+                _ => false,
+            },
+            Op::Get(k) => match (self.other.get(k), res) {
+                (Some(v), Res::Found(w)) => v == w,
+                (None, Res::Nf) => true,
+                _ => false,
+            },
+            Op::Del(k) | Op::DelD(k) => {
+                let present = if cache(k) { self.contains(*k, coll) } else { self.other.contains_key(k) };
+                matches!((present, res), (true, Res::Ok) | (false, Res::Nf))
+            }
+            Op::Ex(k) => *res == Res::Bool(if cache(k) { self.contains(*k, coll) } else { self.other.contains_key(k) }),
+            Op::Scan(p) => match res {
+                Res::Keys(ks) => {
+                    let pfx = p.real();
+                    let want: Vec<Key> = self.keys().into_iter().filter(|k| k.real().starts_with(&pfx)).collect();
+                    *ks == want
+                }
+                _ => false,
+            },
+        }
+    }
+    fn apply(&mut self, op: &Op, coll: &[(Key, Key)]) {
+        match op {
+            Op::Put(k, v) | Op::PutD(k, v) if k.cls() == Cls::C => self.put(*k, *v, coll),
+            Op::Put(k, v) | Op::PutD(k, v) => {
+                self.other.insert(*k, *v);
+            }
+            Op::Del(k) | Op::DelD(k) if k.cls() == Cls::C => {
+                self.delete(*k, coll);
+            }
+            Op::Del(k) | Op::DelD(k) => {
+                self.other.remove(k);
+            }
+            _ => {}
+        }
+    }
+}
+
+fn wg_ring(recs: &[HRec], done: u64, st: &RingSpec, coll: &[(Key, Key)], seen: &mut HashSet<(u64, RingSpec)>, nodes: &mut u64) -> bool {
+    if done.count_ones() as usize == recs.len() {
+        return true;
+    }
+    *nodes += 1;
+    if *nodes > 500_000 {
+        return true; // search budget exhausted: the benefit of the doubt (counted by the caller)
+    }
+    if !seen.insert((done, st.clone())) {
+        return false;
+    }
+    let min_ret = recs.iter().enumerate().filter(|(j, _)| done & (1 << j) == 0).map(|(_, r)| r.ret).min().unwrap();
+    for (j, r) in recs.iter().enumerate() {
+        if done & (1 << j) != 0 || r.inv > min_ret || !st.ok(&r.op, &r.res, coll) {
+            continue;
+        }
+        let mut st2 = st.clone();
+        st2.apply(&r.op, coll);
+        if wg_ring(recs, done | (1 << j), &st2, coll, seen, nodes) {
+            return true;
+        }
+    }
+    false
+}
+
+/// Wing-Gong against the ring: (a legal order exists, the search was cut by its budget)
+fn ring_linearizable(recs: &[HRec], coll: &[(Key, Key)]) -> (bool, bool) {
+    let mut nodes = 0;
+    let st = RingSpec { slots: Vec::new(), index: BTreeMap::new(), other: BTreeMap::new() };
+    let ok = recs.len() > 60 || wg_ring(recs, 0, &st, coll, &mut HashSet::new(), &mut nodes);
+    (ok, nodes > 500_000)
+}
+
 /// two operations of different threads on one `emb:` key overlap in time (the situation
 /// `emb_linearizable_partial` excludes; the root cause of the known `emb:` findings)
 fn emb_ops_overlap(recs: &[HRec]) -> bool {
@@ -1255,6 +1483,40 @@ impl Gen {
     }
 }
 
+impl Gen {
+    /// the shape of history the key comparison of `CacheRing::get` is there for: a few cache keys among
+    /// which pairs with ONE hash (`alphabet`), slots emptied and re-used (delete / put churn), and
+    /// mostly gets; every value distinct, so that a value names the key it was written to
+    fn ring_progs(&mut self, r: &mut Rng, alphabet: &[Key], nthreads: usize, max_ops: u64) -> Vec<Vec<Op>> {
+        let nkeys = (2 + r.below(3) as usize).min(alphabet.len());
+        let first = r.below((alphabet.len() - nkeys + 1) as u64) as usize;
+        // neighbours in the alphabet: the two keys of a pair are adjacent
+        let keys: Vec<Key> = alphabet[first..first + nkeys].to_vec();
+        (0..nthreads)
+            .map(|_| {
+                let n = 1 + r.below(max_ops) as usize;
+                (0..n)
+                    .map(|_| {
+                        let k = *r.pick(&keys);
+                        match r.below(100) {
+                            0..=33 => {
+                                self.next_tag += 1;
+                                let v = Val { tag: self.next_tag, vec: VecF::N };
+                                if r.chance(1, 8) { Op::PutD(k, v) } else { Op::Put(k, v) }
+                            }
+                            34..=68 => Op::Get(k),
+                            69..=82 => if r.chance(1, 8) { Op::DelD(k) } else { Op::Del(k) },
+                            83..=90 => Op::Ex(k),
+                            91..=97 => Op::Scan(Key::of("_cache:")),
+                            _ => Op::Scan(Key::of("")),
+                        }
+                    })
+                    .collect()
+            })
+            .collect()
+    }
+}
+
 /// a read by another thread (a scan, or exists / get of the key) took place entirely between the
 /// first and the last atomic step of the FIRST put of a key in the run
 fn reader_inside_first_put(hist: &[HRec]) -> bool {
@@ -1308,6 +1570,13 @@ struct Ctx<'a> {
     /// the yield point inside `try_get_or_create` is a scheduling point (see `run_real`); the model
     /// is asked with `runi`
     index_steps: bool,
+    /// the yield point inside `CacheRing::get` is a scheduling point (see `run_real`)
+    ring_steps: bool,
+    /// ask the model that has the cache ring as it is (`runr`, or `runrf` when `ring_steps` is off)
+    ring: bool,
+    /// the pairs of cache keys with one hash, checked against the real ring at start
+    coll: Vec<(Key, Key)>,
+    coll_observed: u32,
 }
 
 /// the model command for a store variant: the filtered store has its own step machine
@@ -1331,8 +1600,11 @@ fn step_ops(o: &RunOut, nthreads: usize) -> Vec<(usize, usize)> {
 
 /// one scripted run (mirror of the log mutex), re-run while the scheduler misses its stall window
 fn scripted(progs: &[Vec<Op>], wal: Option<SyncMode>, variant: u8, sched: &[usize]) -> Option<RunOut> {
+    scripted_r(progs, wal, variant, false, sched)
+}
+fn scripted_r(progs: &[Vec<Op>], wal: Option<SyncMode>, variant: u8, ring_steps: bool, sched: &[usize]) -> Option<RunOut> {
     for _ in 0..6 {
-        let o = run_real(progs, wal, variant, None, true, false, false, |i, _, _| sched.get(i).copied());
+        let o = run_real(progs, wal, variant, None, true, false, false, ring_steps, |i, _, _| sched.get(i).copied());
         if !o.unexplained {
             return Some(o);
         }
@@ -1344,6 +1616,9 @@ fn scripted(progs: &[Vec<Op>], wal: Option<SyncMode>, variant: u8, sched: &[usiz
 /// its atomic steps, keep the smaller case when the scripted run still executes as written and
 /// `fails`; then drop the threads that have become empty.
 fn shrink_case(progs: &[Vec<Op>], wal: Option<SyncMode>, variant: u8, first: &RunOut, fails: &mut dyn FnMut(&[Vec<Op>], &RunOut) -> bool) -> (Vec<Vec<Op>>, Vec<usize>) {
+    shrink_case_r(progs, wal, variant, false, first, fails)
+}
+fn shrink_case_r(progs: &[Vec<Op>], wal: Option<SyncMode>, variant: u8, ring_steps: bool, first: &RunOut, fails: &mut dyn FnMut(&[Vec<Op>], &RunOut) -> bool) -> (Vec<Vec<Op>>, Vec<usize>) {
     let mut cur: Vec<Vec<Op>> = progs.to_vec();
     let mut sched: Vec<usize> = first.sched.clone();
     let mut map = step_ops(first, cur.len());
@@ -1358,7 +1633,7 @@ fn shrink_case(progs: &[Vec<Op>], wal: Option<SyncMode>, variant: u8, first: &Ru
                 let mut cand = cur.clone();
                 cand[t].remove(i);
                 let csched: Vec<usize> = sched.iter().zip(map.iter()).filter(|(_, m)| **m != (t, i)).map(|(s, _)| *s).collect();
-                if let Some(o2) = scripted(&cand, wal, variant, &csched) {
+                if let Some(o2) = scripted_r(&cand, wal, variant, ring_steps, &csched) {
                     if !o2.deviated && !o2.panicked && fails(&cand, &o2) {
                         map = step_ops(&o2, cand.len());
                         sched = o2.sched.clone();
@@ -1377,7 +1652,7 @@ fn shrink_case(progs: &[Vec<Op>], wal: Option<SyncMode>, variant: u8, first: &Ru
     if keep.len() < cur.len() && !keep.is_empty() {
         let cand: Vec<Vec<Op>> = keep.iter().map(|t| cur[*t].clone()).collect();
         let csched: Vec<usize> = sched.iter().filter_map(|t| keep.iter().position(|k| k == t)).collect();
-        if let Some(o2) = scripted(&cand, wal, variant, &csched) {
+        if let Some(o2) = scripted_r(&cand, wal, variant, ring_steps, &csched) {
             if !o2.deviated && !o2.panicked && fails(&cand, &o2) {
                 return (cand, o2.sched);
             }
@@ -1387,6 +1662,16 @@ fn shrink_case(progs: &[Vec<Op>], wal: Option<SyncMode>, variant: u8, first: &Ru
 }
 
 impl Ctx<'_> {
+    /// the model command for a case: `run` / `runb` (store variant) / `runi` (index granularity) /
+    /// `runr` (the cache ring as it is, `get` in two steps) / `runrf` (the same, `get` in one scheduler step)
+    fn model_line(&self, progs: &[Vec<Op>], wal: bool, sched: &[usize]) -> String {
+        let (w, ps, sc) = (if wal { 1 } else { 0 }, show_progs(progs), show_sched(sched));
+        if self.ring {
+            return format!("{} {w} {} {ps} {sc}", if self.ring_steps { "runr" } else { "runrf" }, show_coll(&collisions_in(progs, &self.coll)));
+        }
+        format!("{} {w} {ps} {sc}", if self.index_steps { "runi" } else { run_cmd(self.variant) })
+    }
+
     fn violation(&mut self, class: &str, what: &str, input: serde_json::Value) {
         let c = self.viol_count.entry(class.to_string()).or_insert(0);
         *c += 1;
@@ -1403,7 +1688,7 @@ impl Ctx<'_> {
         // must be reproduced on every run, also on a loaded machine
         for _attempt in 0..(if sched.is_some() { 12 } else { 3 }) {
             let mut r2 = rng.clone();
-            let o = run_real(progs, wal, self.variant, self.crash_at, !self.real_mutex, self.exclusive_emb, self.index_steps, |i, ids, holder| match sched {
+            let o = run_real(progs, wal, self.variant, self.crash_at, !self.real_mutex, self.exclusive_emb, self.index_steps, self.ring_steps, |i, ids, holder| match sched {
                 Some(s) => s.get(i).copied(),
                 // while somebody waits for the mutex every scheduling decision costs the stall window:
                 // let the holder go on half of the time
@@ -1427,10 +1712,9 @@ impl Ctx<'_> {
                 return None;
             }
         };
-        let ps = show_progs(progs);
         // the model is asked about the order of the atomic steps; a replay needs the grants
         let variant = self.variant;
-        let line = format!("{} {} {} {}", if self.index_steps { "runi" } else { run_cmd(variant) }, if wal.is_some() { 1 } else { 0 }, ps, show_sched(&o.sched));
+        let line = self.model_line(progs, wal.is_some(), &o.sched);
         let ans = self.model.ask(&line);
         let real_mutex = self.real_mutex;
         let grants_s = show_sched(&o.grants);
@@ -1629,7 +1913,7 @@ impl Ctx<'_> {
     /// blocked thread where it is).  If the mutex were released before the apply (the code before
     /// dfea2ecb) the script executes as written and the durable oracle reports the reversal.
     fn mutex_probe(&mut self, progs: &[Vec<Op>], sched: &[usize]) {
-        let o = run_real(progs, Some(SyncMode::Immediate), 0, None, false, false, false, |i, _, _| sched.get(i).copied());
+        let o = run_real(progs, Some(SyncMode::Immediate), 0, None, false, false, false, false, |i, _, _| sched.get(i).copied());
         let line = format!("run 1 {} {}", show_progs(progs), show_sched(sched));
         self.rep.case("probe.log_mutex", Some(&line));
         self.rep.hit(if o.stalled { "probe:second_durable_writer_blocked_on_real_log_mutex" } else { "probe:second_durable_writer_not_blocked" });
@@ -1693,6 +1977,17 @@ impl Ctx<'_> {
         //     CALL (for a durable write that waited for the mutex: the grant, not the log step) to
         //     its last step
         let hist: Vec<HRec> = o.hist.iter().map(|r| HRec { inv: r.call, ..r.clone() }).collect();
+        // (00) a read returns only a value that was written TO THE KEY IT READS (Lean: `RingProps.cache_get_
+        //      returns_only_a_value_written_to_that_key`, every hash function, every interleaving of the two
+        //      lock sections of `CacheRing::get`).  Evaluated first, on every case of every stream.
+        self.value_oracle(progs, wal, o, base);
+        let coll = collisions_in(progs, &self.coll);
+        if !coll.is_empty() {
+            // two live cache keys with ONE hash: the ring is not a key->value map on them (Lean:
+            // `ring_is_not_a_map_on_colliding_keys_witness`), the map oracles below do not apply
+            self.collision_oracles(progs, o, base, &coll, &hist);
+            return self.durable_oracle(progs, wal, o, base, &[]);
+        }
         // (0) the entity index: a key never has two live ids (`IndexProps.get_or_create_never_gives_a_key_
         //     two_live_ids`, read off the real index once every thread has finished), and a deleted key is
         //     gone (`deleted_key_is_gone`, judged on the recorded history).  Evaluated first and on its
@@ -1835,6 +2130,80 @@ impl Ctx<'_> {
             self.rep.hit("oracle:history_linearizable");
         }
         self.durable_oracle(progs, wal, o, base, &incoherent);
+    }
+
+    /// (00) of `oracles`: no get returns a value that was only ever put under another key
+    fn value_oracle(&mut self, progs: &[Vec<Op>], wal: bool, o: &RunOut, base: &serde_json::Value) {
+        let (r, owner) = match value_of_another_key(progs, &o.hist) {
+            None => return self.rep.hit("oracle:every_get_returned_a_value_written_to_its_own_key"),
+            Some(x) => x,
+        };
+        let k = r.op.key().unwrap_or(owner);
+        let class = if k.cls() == Cls::C { CLASS_VALUE_OF_ANOTHER_KEY.to_string() } else { format!("tensor_store.slab_router.get.{}/value_of_another_key", k.cls().name()) };
+        let detail = |r: &HRec, owner: Key, o: &RunOut, coll: &[(Key, Key)]| {
+            json!({
+                "get": format!("t{}.{}: get({:?}) -> {} (steps {}-{})", r.t, r.i, r.op.key().map(|k| k.real()).unwrap_or_default(), r.res.show(), r.inv, r.ret),
+                "value_was_only_ever_put_under": owner.real(),
+                "keys_with_one_hash": coll.iter().map(|(a, b)| format!("{} = {}", a.real(), b.real())).collect::<Vec<_>>(),
+                "real_history": o.hist_s, "real_trace": o.trace, "image": o.image,
+            })
+        };
+        let mut inp = with(base, detail(&r, owner, o, &collisions_in(progs, &self.coll)));
+        if !self.real_mutex && !self.index_steps && self.viol_count.get(&class).copied().unwrap_or(0) < 3 {
+            // shrink: the fewest operations with which the scripted run still returns a foreign value
+            let w = if wal { self.cur_wal.or(Some(SyncMode::Manual)) } else { None };
+            let (sp, ss) = shrink_case_r(progs, w, self.variant, self.ring_steps, o, &mut |p, o2| value_of_another_key(p, &o2.hist).is_some());
+            if let Some(o2) = scripted_r(&sp, w, self.variant, self.ring_steps, &ss) {
+                if let Some((r2, owner2)) = value_of_another_key(&sp, &o2.hist) {
+                    let sline = self.model_line(&sp, wal, &ss);
+                    inp = with(&with(base, detail(&r2, owner2, &o2, &collisions_in(&sp, &self.coll))), json!({"line": sline, "original_line": base["line"]}));
+                }
+            }
+        }
+        self.violation(&class, WHAT_VALUE_OF_ANOTHER_KEY, inp);
+    }
+
+    /// a case in which two cache keys of the programs share a hash.  Judged against THE RING (the
+    /// sequential behaviour of `CacheRing` with these collisions, `RingSpec`): the recorded history
+    /// must be one of its sequential executions in an order that respects real time.  Where the ring
+    /// departs from the key->value map (a key displaced by a put of the other key of its hash: get
+    /// NotFound / exists false / delete NotFound while the scan still lists it) is recorded as an
+    /// observation - a finding about the code as it is, outside what the seeded streams judged so far.
+    fn collision_oracles(&mut self, _progs: &[Vec<Op>], o: &RunOut, base: &serde_json::Value, coll: &[(Key, Key)], hist: &[HRec]) {
+        self.rep.hit("collision:case_with_two_cache_keys_of_one_hash");
+        let (ok, budget) = ring_linearizable(hist, coll);
+        if budget {
+            self.budget_hits += 1;
+        }
+        if ok {
+            self.rep.hit("oracle:history_is_a_sequential_execution_of_the_ring");
+        } else {
+            self.violation(
+                "tensor_store.cache_ring/history_not_a_sequential_execution_of_the_ring",
+                "two cache keys of the programs share a hash; no order of the completed operations that respects real time is a sequential execution of the cache ring itself (index from hash to slot, slots holding key and value, a get answers for its own key only)",
+                with(base, json!({"keys_with_one_hash": coll.iter().map(|(a, b)| format!("{} = {}", a.real(), b.real())).collect::<Vec<_>>(), "real_history": o.hist_s, "real_trace": o.trace, "image": o.image})),
+            );
+        }
+        // the departure from the map (the unchanged code shows it in every such case that puts both keys)
+        let map_ok = linearizable(hist).0;
+        let ghosts: Vec<String> = o.mem_view.iter().filter(|(_, v)| v.ends_with("nf/F/T")).map(|(k, _)| k.real()).collect();
+        if map_ok && ghosts.is_empty() {
+            self.rep.hit("collision:history_also_legal_for_the_key_value_map");
+            return;
+        }
+        self.rep.hit("observed:colliding_cache_keys_ring_departs_from_key_value_map");
+        if !ghosts.is_empty() {
+            self.rep.hit("observed:displaced_cache_key_still_listed_by_scan");
+        }
+        self.coll_observed += 1;
+        if self.coll_observed <= 2 {
+            self.rep.observe(json!({
+                "what": "CacheRing indexes its slots by the 64-bit FxHash of the key alone: a put of a key whose hash equals that of a live key takes the index entry over and leaves the other entry in its slot - get says NotFound, exists false and delete NotFound for it although no delete ran, the scan (which walks the slots) keeps listing it, and the slot is never freed. Keys with equal FxHash are easy to construct (multiply_mix is symmetric). Candidate finding about the code as it is; the model has it (RingProps.ring_is_not_a_map_on_colliding_keys_witness); proposed/C11-cache-ring-collision-orphan.diff makes the second put REPLACE the colliding entry",
+                "input": base["line"], "keys_with_one_hash": coll.iter().map(|(a, b)| format!("{} = {}", a.real(), b.real())).collect::<Vec<_>>(),
+                "keys_listed_by_scan_that_get_and_exists_deny": ghosts, "legal_for_the_key_value_map": map_ok,
+                "real_history": o.hist_s, "image_get/exists/inscan": o.image,
+            }));
+        }
     }
 
     // (b) crash after quiescence: the store recovered from the log file alone shows every key
@@ -2162,6 +2531,85 @@ impl Ctx<'_> {
     }
 }
 
+// ------------------------------------------------------------------ `CacheRing::get` racing the re-use of its slot, FREE-RUNNING
+
+/// What the deterministic scheduler cannot reach while there is no yield point inside `CacheRing::get`:
+/// readers of `_cache:` key `a` run against a writer that keeps emptying `a`'s slot and filling it
+/// with key `b` (put a, delete a, put b, delete b: `find_slot_for_insert` returns the first empty
+/// slot, so `b` lands where `a` was).  A reader that has read `a`'s slot number from the index and
+/// then waits for the slots lock finds `b`'s entry there; the comparison of the keys is the only
+/// thing between it and `b`'s value.  Values of `a` have odd tags, values of `b` even ones.
+/// Returns (gets that found a value, gets that reported absent, the first get of `a` that returned a value of `b`).
+fn stress_cache_get(loops: u32, readers: usize) -> (u64, u64, Option<(u32, Val)>) {
+    use std::sync::atomic::{AtomicBool, AtomicU64, Ordering};
+    let store = TensorStore::new();
+    let (a, b) = (Key::of("_cache:stress:a"), Key::of("_cache:stress:b"));
+    let stop = Arc::new(AtomicBool::new(false));
+    let (found, absent) = (Arc::new(AtomicU64::new(0)), Arc::new(AtomicU64::new(0)));
+    let wrong: Arc<Mutex<Option<(u32, Val)>>> = Arc::new(Mutex::new(None));
+    let progress = Arc::new(AtomicU64::new(0));
+    let mut hs = Vec::new();
+    for _ in 0..readers {
+        let (store, stop, found, absent, wrong, progress) = (store.clone(), stop.clone(), found.clone(), absent.clone(), wrong.clone(), progress.clone());
+        hs.push(std::thread::spawn(move || {
+            tensor_store::verif::set_yield_hook(None);
+            while !stop.load(Ordering::Relaxed) {
+                match exec(&store, &Op::Get(a)) {
+                    Res::Found(v) => {
+                        found.fetch_add(1, Ordering::Relaxed);
+                        if v.tag % 2 == 0 {
+                            let mut w = wrong.lock().unwrap();
+                            if w.is_none() {
+                                *w = Some((progress.load(Ordering::Relaxed) as u32, v));
+                            }
+                        }
+                    }
+                    _ => {
+                        absent.fetch_add(1, Ordering::Relaxed);
+                    }
+                }
+            }
+        }));
+    }
+    for i in 0..loops {
+        progress.store(u64::from(i), Ordering::Relaxed);
+        let (va, vb) = (Val { tag: 2 * i + 1, vec: VecF::N }, Val { tag: 2 * i + 2, vec: VecF::N });
+        exec(&store, &Op::Put(a, va));
+        exec(&store, &Op::Del(a));
+        exec(&store, &Op::Put(b, vb));
+        exec(&store, &Op::Del(b));
+        if i % 64 == 0 && wrong.lock().unwrap().is_some() {
+            break;
+        }
+    }
+    stop.store(true, Ordering::SeqCst);
+    for h in hs {
+        let _ = h.join();
+    }
+    let w = *wrong.lock().unwrap();
+    (found.load(Ordering::Relaxed), absent.load(Ordering::Relaxed), w)
+}
+
+impl Ctx<'_> {
+    fn stress_ring(&mut self, loops: u32, readers: usize) {
+        let (found, absent, wrong) = stress_cache_get(loops, readers);
+        self.rep.case("stress.cache_get_vs_slot_reuse", None);
+        self.rep.hit_n("stress:cache_gets_that_found_a_value", found);
+        self.rep.hit_n("stress:cache_gets_that_reported_absent", absent);
+        match wrong {
+            None => self.rep.hit("oracle:every_get_returned_a_value_written_to_its_own_key"),
+            Some((at, v)) => self.violation(
+                CLASS_VALUE_OF_ANOTHER_KEY,
+                WHAT_VALUE_OF_ANOTHER_KEY,
+                json!({"line": "", "stress_cache_get": {"loops": loops, "readers": readers},
+                       "what_runs": format!("{readers} free-running threads loop get(\"_cache:stress:a\"); one thread loops put a (odd tag), delete a, put \"_cache:stress:b\" (even tag), delete b - b re-uses the slot a has just left"),
+                       "get": format!("get(\"_cache:stress:a\") -> v{} during loop {at} of the writer", v.show()),
+                       "value_was_only_ever_put_under": "_cache:stress:b"}),
+            ),
+        }
+    }
+}
+
 // ------------------------------------------------------------------ main
 
 fn main() {
@@ -2183,16 +2631,34 @@ fn main() {
             // configuration is run again for the same number of rounds
             let writers = v["failing_input"]["stress"]["writers"].as_u64().unwrap_or(8).clamp(2, 16) as usize;
             let rounds = v["failing_input"]["stress"]["rounds"].as_u64().unwrap_or(300).clamp(1, 100_000) as usize;
-            let mut ctx = Ctx { rep: &mut rep, model: &mut model, viol_count: BTreeMap::new(), budget_hits: 0, stalls: 0, exclusive_emb: false, real_mutex: false, variant: 0, scan_observed: 0, crash_at: None, cur_wal: None, twin_differs: None, twin_history_differs: false, twin_always: false, index_steps: false };
+            let mut ctx = Ctx { rep: &mut rep, model: &mut model, viol_count: BTreeMap::new(), budget_hits: 0, stalls: 0, exclusive_emb: false, real_mutex: false, variant: 0, scan_observed: 0, crash_at: None, cur_wal: None, twin_differs: None, twin_history_differs: false, twin_always: false, index_steps: false, ring_steps: false, ring: false, coll: Vec::new(), coll_observed: 0 };
             ctx.stress(mode, writers, rounds, 1000);
             println!("stress {} writers={writers} rounds={rounds}: rounds that failed the oracle: {}", mode.name(), ctx.viol_count.get(CLASS_TWO_LIVE_IDS).copied().unwrap_or(0));
+        } else if let Some(sc) = v["failing_input"]["stress_cache_get"].as_object() {
+            // free-running readers against the re-use of their key's slot: the same configuration again
+            let loops = sc.get("loops").and_then(|x| x.as_u64()).unwrap_or(20_000).clamp(1, 10_000_000) as u32;
+            let readers = sc.get("readers").and_then(|x| x.as_u64()).unwrap_or(3).clamp(1, 16) as usize;
+            let mut ctx = Ctx { rep: &mut rep, model: &mut model, viol_count: BTreeMap::new(), budget_hits: 0, stalls: 0, exclusive_emb: false, real_mutex: false, variant: 0, scan_observed: 0, crash_at: None, cur_wal: None, twin_differs: None, twin_history_differs: false, twin_always: false, index_steps: false, ring_steps: false, ring: false, coll: Vec::new(), coll_observed: 0 };
+            ctx.stress_ring(loops, readers);
+            println!("stress cache_get loops={loops} readers={readers}: gets that returned a value of another key: {}", ctx.viol_count.get(CLASS_VALUE_OF_ANOTHER_KEY).copied().unwrap_or(0));
+        } else if f.len() == 5 && (f[0] == "runr" || f[0] == "runrf") {
+            // `runr|runrf <wal> <collisions> <programs> <schedule>`: the cache ring as it is
+            if let Some(progs) = parse_progs(f[3]) {
+                let sched = parse_sched(f[4]);
+                let mut ctx = Ctx { rep: &mut rep, model: &mut model, viol_count: BTreeMap::new(), budget_hits: 0, stalls: 0, exclusive_emb: false, real_mutex: false, variant: 0, scan_observed: 0, crash_at: None, cur_wal: None, twin_differs: None, twin_history_differs: false, twin_always: false, index_steps: false, ring_steps: f[0] == "runr", ring: true, coll: parse_coll(f[2]), coll_observed: 0 };
+                let mut r = root.fork("replay");
+                let wal = if f[1] == "1" { Some(SyncMode::Immediate) } else { None };
+                if let Some(o) = ctx.case("replay", &progs, wal, Some(&sched), &mut r, true) {
+                    println!("real trace  : {}\nreal history: {}\nreal image  : {}", o.trace, o.hist_s, o.image);
+                }
+            }
         } else if f.len() == 4 {
             if let Some(progs) = parse_progs(f[2]) {
                 let real_mutex = v["failing_input"]["mutex"].as_str() == Some("real");
                 let sched = parse_sched(if real_mutex { v["failing_input"]["grants"].as_str().unwrap_or(f[3]) } else { f[3] });
                 // the store of the failing run: `runb` = built with a Bloom filter; `store_variant` as in `run_real`
                 let variant = (v["failing_input"]["store_variant"].as_u64().unwrap_or(0) as u8 & 3) | u8::from(f[0] == "runb");
-                let mut ctx = Ctx { rep: &mut rep, model: &mut model, viol_count: BTreeMap::new(), budget_hits: 0, stalls: 0, exclusive_emb: false, real_mutex, variant, scan_observed: 0, crash_at: None, cur_wal: None, twin_differs: None, twin_history_differs: false, twin_always: true, index_steps: v["failing_input"]["line"].as_str().map_or(false, |l| l.starts_with("runi ")) };
+                let mut ctx = Ctx { rep: &mut rep, model: &mut model, viol_count: BTreeMap::new(), budget_hits: 0, stalls: 0, exclusive_emb: false, real_mutex, variant, scan_observed: 0, crash_at: None, cur_wal: None, twin_differs: None, twin_history_differs: false, twin_always: true, index_steps: v["failing_input"]["line"].as_str().map_or(false, |l| l.starts_with("runi ")), ring_steps: false, ring: false, coll: Vec::new(), coll_observed: 0 };
                 let mut r = root.fork("replay");
                 let wal = if f[1] == "1" { Some(SyncMode::Immediate) } else { None };
                 if let Some(o) = ctx.case("replay", &progs, wal, Some(&sched), &mut r, true) {
@@ -2205,7 +2671,166 @@ fn main() {
     }
 
     let scale: u64 = if args.thorough { 12 } else { 1 };
-    let mut ctx = Ctx { rep: &mut rep, model: &mut model, viol_count: BTreeMap::new(), budget_hits: 0, stalls: 0, exclusive_emb: false, real_mutex: false, variant: 0, scan_observed: 0, crash_at: None, cur_wal: None, twin_differs: None, twin_history_differs: false, twin_always: false, index_steps: false };
+    let mut ctx = Ctx { rep: &mut rep, model: &mut model, viol_count: BTreeMap::new(), budget_hits: 0, stalls: 0, exclusive_emb: false, real_mutex: false, variant: 0, scan_observed: 0, crash_at: None, cur_wal: None, twin_differs: None, twin_history_differs: false, twin_always: false, index_steps: false, ring_steps: false, ring: false, coll: Vec::new(), coll_observed: 0 };
+
+    // ---- FIRST OF ALL: the cache ring as it is.  `CacheRing` finds a key through an index from the
+    //      64-bit FxHash OF THE KEY to a slot number, reads the slot in a second lock section, and
+    //      compares `entry.key == key`.  That comparison is the only thing between the code and a get
+    //      that returns ANOTHER key's value in two situations (Lean: `RingProps.cache_get_returns_only_a_
+    //      value_written_to_that_key` for every hash function and every interleaving;
+    //      `get_without_key_check_collision_witness`, `get_without_key_check_interleaving_witness`):
+    //      (b) two live keys with ONE hash - sequential, the shortest history is put A, put B, get A;
+    //      (a) the slot is emptied and re-used by another key between the two lock sections of `get`.
+    //      (b) is scripted here with pairs of `_cache:` keys whose FxHash is equal (checked against the
+    //      real ring first); (a) is scheduled when the tree has the yield point inside `CacheRing::get`,
+    //      and raced by free-running threads always.  Model: `runr` / `runrf` (the ring with the hash
+    //      groups of the case); oracles: `value_of_another_key` (every case of every stream),
+    //      Wing-Gong against the ring itself.
+    {
+        let t_ring = std::time::Instant::now();
+        let mut pairs: Vec<(Key, Key)> = Vec::new();
+        for (a, b) in COLLIDING {
+            if pair_collides(a, b) {
+                pairs.push((Key::of(a), Key::of(b)));
+                ctx.rep.hit("collisions:pair_shares_one_index_entry_of_the_real_ring");
+            } else {
+                ctx.rep.hit("collisions:pair_no_longer_collides_skipped");
+            }
+        }
+        if pair_collides("_cache:1", "_cache:2") || pair_collides("_cache:sess:a", "_cache:sess:b") {
+            ctx.rep.disagree("collisions.control", json!({"keys": ["_cache:1", "_cache:2", "_cache:sess:a", "_cache:sess:b"]}), "two ordinary cache keys share an index entry of the real ring", "distinct hashes");
+        }
+        if pairs.len() < COLLIDING.len() {
+            ctx.rep.note(&format!("{} of the {} hard-coded pairs of cache keys no longer share an index entry of the real CacheRing (the hash function changed?): the collision streams run with the remaining {} pairs", COLLIDING.len() - pairs.len(), COLLIDING.len(), pairs.len()));
+        }
+        ctx.coll = pairs.clone();
+        ctx.ring = true;
+        let (c1, c2, p1) = (Key::new(Cls::C, 1), Key::new(Cls::C, 2), Key::new(Cls::P, 1));
+        let n = |t: u32| Val { tag: t, vec: VecF::N };
+        let scan_c = Op::Scan(Key::of("_cache:"));
+        let hook = {
+            let o = run_real(&[vec![Op::Put(c1, n(1)), Op::Get(c1)]], None, 0, None, true, false, false, true, |_, ids, _| ids.first().copied());
+            o.steps.iter().any(|s| s.1 == SITE_RING_GET)
+        };
+        ctx.rep.hit(if hook { "hook:cache_ring.get.after_index:present" } else { "hook:cache_ring.get.after_index:absent" });
+        ctx.ring_steps = hook;
+        // (b) sequential, directed: the minimal history and its neighbours, per pair
+        let mut r = root.fork("directed.ring");
+        let npairs = if args.thorough { pairs.len() } else { pairs.len().min(3) };
+        for (pi, (a, b)) in pairs.iter().take(npairs).enumerate() {
+            let (a, b) = (*a, *b);
+            let (c, d) = pairs[(pi + 1) % pairs.len()];
+            let t = 100 * (pi as u32 + 1);
+            let seqs: Vec<(&str, Vec<Op>, bool)> = vec![
+                ("put_put_get", vec![Op::Put(a, n(t + 1)), Op::Put(b, n(t + 2)), Op::Get(a), Op::Get(b)], false),
+                ("order_reversed", vec![Op::Put(b, n(t + 1)), Op::Put(a, n(t + 2)), Op::Get(b), Op::Get(a)], false),
+                ("exists_scan_delete", vec![Op::Put(a, n(t + 1)), Op::Put(b, n(t + 2)), Op::Get(a), Op::Ex(a), Op::Ex(b), scan_c, Op::Del(a), Op::Get(b), Op::Del(b), scan_c, Op::Get(a), Op::Ex(a)], false),
+                ("put_first_again", vec![Op::Put(a, n(t + 1)), Op::Put(b, n(t + 2)), Op::Put(a, n(t + 3)), Op::Get(a), Op::Get(b), scan_c, Op::Del(a), Op::Get(b), Op::Ex(b)], false),
+                ("delete_second", vec![Op::Put(a, n(t + 1)), Op::Put(b, n(t + 2)), Op::Del(b), Op::Get(a), Op::Ex(a), scan_c, Op::Put(a, n(t + 3)), Op::Get(a), scan_c, Op::Del(a), scan_c], false),
+                ("overwrite_in_place", vec![Op::Put(a, n(t + 1)), Op::Put(a, n(t + 2)), Op::Get(a), Op::Put(b, n(t + 3)), Op::Put(b, n(t + 4)), Op::Get(b), Op::Get(a)], false),
+                ("two_pairs", vec![Op::Put(a, n(t + 1)), Op::Put(c, n(t + 2)), Op::Put(b, n(t + 3)), Op::Get(a), Op::Get(c), Op::Put(d, n(t + 4)), Op::Get(c), Op::Get(d), Op::Get(b), scan_c], false),
+                ("among_other_keys", vec![Op::Put(c1, n(t + 1)), Op::Put(a, n(t + 2)), Op::Put(p1, n(t + 3)), Op::Put(b, n(t + 4)), Op::Get(c1), Op::Get(a), Op::Get(b), Op::Get(p1), Op::Scan(Key::of(""))], false),
+                ("durable_forms", vec![Op::PutD(a, n(t + 1)), Op::PutD(b, n(t + 2)), Op::Get(a), Op::Get(b), Op::DelD(b), Op::Get(a), Op::DelD(a)], true),
+            ];
+            for (name, prog, durable) in seqs {
+                if pairs.len() < 2 && name == "two_pairs" {
+                    continue;
+                }
+                ctx.case(&format!("directed.ring.collision.{name}"), &[prog], if durable { Some(SyncMode::Immediate) } else { None }, None, &mut r, true);
+            }
+            // the same keys from two / three threads, seeded schedules
+            let conc: Vec<(&str, Vec<Vec<Op>>)> = vec![
+                ("two_threads", vec![vec![Op::Put(a, n(t + 11)), Op::Get(a), Op::Del(a)], vec![Op::Put(b, n(t + 12)), Op::Get(b), Op::Get(a)]]),
+                ("three_threads", vec![vec![Op::Put(a, n(t + 21)), Op::Get(a), Op::Get(a)], vec![Op::Put(b, n(t + 22)), Op::Del(b), Op::Put(b, n(t + 23))], vec![Op::Get(a), Op::Get(b), scan_c]]),
+            ];
+            for (name, progs) in conc {
+                for _ in 0..(3 * scale) {
+                    ctx.case(&format!("directed.ring.collision.{name}"), &progs, None, None, &mut r, true);
+                }
+            }
+        }
+        // (a) the slot re-used between the two lock sections of `get`: one reader, one thread that
+        //     deletes the key and puts another one (no two keys with one hash)
+        {
+            let race = vec![vec![Op::Put(c1, n(1)), Op::Del(c1), Op::Put(c2, n(2))], vec![Op::Get(c1)]];
+            if hook {
+                // the interleaving of `get_without_key_check_interleaving_witness`, from the model: on the
+                // code as it is the reader compares the keys and reports NotFound
+                let w = ctx.model.ask("witness ring_race");
+                let f: Vec<&str> = w.split(' ').collect();
+                match (f.get(2).and_then(|p| parse_progs(p)), f.len() == 4) {
+                    (Some(progs), true) => {
+                        let before = ctx.viol_count.get(CLASS_VALUE_OF_ANOTHER_KEY).copied().unwrap_or(0);
+                        match ctx.case("witness.ring_race", &progs, None, Some(&parse_sched(f[3])), &mut r, true) {
+                            Some(_) => {
+                                let after = ctx.viol_count.get(CLASS_VALUE_OF_ANOTHER_KEY).copied().unwrap_or(0);
+                                ctx.rep.hit(if after > before { "witness_reproduced_on_real_store:ring_race" } else { "witness_not_reproduced_on_real_store:ring_race" });
+                            }
+                            None => ctx.rep.disagree("witness.stalled", json!({"witness": "ring_race"}), "scheduler stalled on every attempt", ""),
+                        }
+                    }
+                    _ => ctx.rep.disagree("witness.driver", json!({"witness": "ring_race"}), "", &w),
+                }
+            }
+            // every placement of the reader among the writer's steps (the model says which schedules
+            // execute as written: a get that misses the index has one step, a hit has two)
+            let total = if hook { 5 } else { 4 };
+            for mask in 0u32..(1 << total) {
+                let sched: Vec<usize> = (0..total).map(|i| ((mask >> i) & 1) as usize).collect();
+                if sched.iter().filter(|t| **t == 0).count() != 3 {
+                    continue;
+                }
+                let line = ctx.model_line(&race, false, &sched);
+                let ans = ctx.model.ask(&line);
+                let steps = ans.split(" | ").find_map(|p| p.strip_prefix("trace ")).map_or(0, |t| t.split(',').count());
+                if steps != sched.len() || !ans.ends_with("q=1") {
+                    continue;
+                }
+                ctx.case("directed.ring.get_vs_slot_reuse", &race, None, Some(&sched), &mut r, true);
+            }
+            let neighbours: Vec<(&str, Vec<Vec<Op>>)> = vec![
+                ("reuse_and_return", vec![vec![Op::Put(c1, n(11)), Op::Del(c1), Op::Put(c2, n(12)), Op::Del(c2), Op::Put(c1, n(13))], vec![Op::Get(c1), Op::Get(c1)]]),
+                ("two_readers", vec![vec![Op::Put(c1, n(21)), Op::Del(c1), Op::Put(c2, n(22))], vec![Op::Get(c1), Op::Get(c2)], vec![Op::Get(c2), Op::Get(c1)]]),
+                ("overwrite_under_reader", vec![vec![Op::Put(c1, n(31)), Op::Put(c1, n(32)), Op::Del(c1)], vec![Op::Get(c1), Op::Ex(c1), Op::Get(c1)]]),
+            ];
+            for (name, progs) in neighbours {
+                for _ in 0..(4 * scale) {
+                    ctx.case(&format!("directed.ring.{name}"), &progs, None, None, &mut r, true);
+                }
+            }
+        }
+        // seeded: a few cache keys among which pairs with one hash; one thread (long programs) and
+        // 2-4 scheduled threads; every fifth case on a store with a log (cache keys are never logged)
+        let mut alphabet: Vec<Key> = vec![c1, c2];
+        for (a, b) in &pairs {
+            alphabet.push(*a);
+            alphabet.push(*b);
+        }
+        let mut gen = Gen { next_tag: 1000 };
+        let mut r = root.fork("random.cache_collisions");
+        for i in 0..(70 * scale) {
+            let progs = gen.ring_progs(&mut r, &alphabet[2.min(alphabet.len() - 2)..], 1, 12);
+            ctx.case("random.cache_collisions.sequential", &progs, if i % 5 == 4 { Some(SyncMode::Manual) } else { None }, None, &mut r, true);
+        }
+        for i in 0..(90 * scale) {
+            let nthreads = 2 + (i % 3) as usize;
+            let progs = gen.ring_progs(&mut r, &alphabet, nthreads, 3);
+            ctx.case("random.cache_collisions.scheduled", &progs, if i % 5 == 4 { Some(SyncMode::Manual) } else { None }, None, &mut r, true);
+        }
+        // the delete / put churn on two ordinary keys under readers (with the hook: `get` in two steps)
+        let mut r = root.fork("random.ring_slot_reuse");
+        for i in 0..(50 * scale) {
+            let nthreads = 2 + (i % 3) as usize;
+            let progs = gen.ring_progs(&mut r, &alphabet[..2], nthreads, 4);
+            ctx.case("random.ring_slot_reuse", &progs, None, None, &mut r, true);
+        }
+        ctx.ring = false;
+        ctx.ring_steps = false;
+        let ms_cases = t_ring.elapsed().as_millis();
+        // the race itself, free-running (not scripted)
+        ctx.stress_ring(if args.thorough { 120_000 } else { 10_000 }, 3);
+        ctx.rep.note(&format!("cache ring streams: scripted / scheduled cases {ms_cases} ms, free-running stress {} ms", t_ring.elapsed().as_millis() - ms_cases));
+    }
 
     // ---- FIRST: the entity index under concurrent FIRST puts of one `emb:` key (a key nobody has put
     //      before, or the first put after a delete).  `EntityIndex::try_get_or_create` looks the key up
@@ -2220,7 +2845,7 @@ fn main() {
     {
         let hook = {
             let k = Key::new(Cls::E, 1);
-            let o = run_real(&[vec![Op::Put(k, Val { tag: 1, vec: VecF::Good(1) })]], None, 0, None, true, false, true, |_, ids, _| ids.first().copied());
+            let o = run_real(&[vec![Op::Put(k, Val { tag: 1, vec: VecF::Good(1) })]], None, 0, None, true, false, true, false, |_, ids, _| ids.first().copied());
             o.steps.iter().any(|s| s.1 == SITE_INDEX_MISS)
         };
         ctx.rep.hit(if hook { "hook:index.get_or_create.after_miss:present" } else { "hook:index.get_or_create.after_miss:absent" });
@@ -2851,11 +3476,14 @@ fn main() {
         "oracle:one_live_id_per_key_and_deleted_key_gone",
         "stress:fresh_key", "stress:key_deleted_before", "stress:fresh_key_durable_store",
         "stress:writers:2", "stress:writers:3", "stress:writers:4", "stress:writers:6", "stress:writers:8",
+        "collisions:pair_shares_one_index_entry_of_the_real_ring", "collision:case_with_two_cache_keys_of_one_hash",
+        "oracle:every_get_returned_a_value_written_to_its_own_key", "oracle:history_is_a_sequential_execution_of_the_ring",
+        "stress:cache_gets_that_found_a_value", "stress:cache_gets_that_reported_absent",
     ]
     .iter()
     .map(|s| s.to_string())
     .collect();
-    rep.note("cache ring capacity 10 000 ≫ the ≤ 2 contended cache keys of a case: eviction never fires (model has none)");
+    rep.note("cache ring capacity 10 000 ≫ the handful of cache keys of a case: eviction never fires (the ring model has it, as an arbitrary choice of the victim; it is not exercised)");
     rep.note("a step = the code between two yield hooks; preemption inside a step (between the slab locks of one scan / exists / delete-check) is not exercised");
     rep.note(&format!("scheduler stalls (runner missed the 30 ms window; case re-run): {stalls}; Wing–Gong searches cut by the node budget: {budget_hits}"));
     if !counts.is_empty() {
